@@ -34,6 +34,14 @@ Theorem C19_autocut_never_panics_partial : forall (ys : list Z) (c : Z),
 Proof. exact autocut_no_panic_not2. Qed.
 Print Assumptions C19_autocut_never_panics_partial.
 
+(** ... and not on two scores either: autocut never panics, for every list of float32 bit patterns
+    (proved through the Flocq bridge: x / x is exactly 1 or NaN) *)
+From Comet Require Import Proofs.DistanceP Proofs.AutocutP.
+Theorem C19_autocut_never_panics : forall (ys : list Z) (c : Z),
+  Forall wf32 ys -> autocut ys c <> CutPanic.
+Proof. exact autocut_never_panics. Qed.
+Print Assumptions C19_autocut_never_panics.
+
 Theorem C19_autocut_results_prefix : forall (l : list (Z * Z)) (c : Z) (r : list (Z * Z)),
   autocut_results l c = Some r -> exists t, l = r ++ t.
 Proof. exact autocut_results_prefix. Qed.
